@@ -1,4 +1,4 @@
-"""C03 - call routing. Spec: Client.tla. Binding: A (trace validation of seeded scenarios against the real async client)."""
+"""C03 - call routing. Specs: Client.tla (async client; binding A: trace validation of seeded scenarios), HttpClient.tla (HTTP client; binding B: replay)."""
 import vlib
 from checks import client
 
@@ -13,13 +13,33 @@ def run(tier):
                       "3 concurrent calls; the peer answers seen and foreign ids in any order with duplicates and omissions; all interleavings")],
         asis=[("MC_Client_asis_F10.cfg", "Inv_IdsUnique", "batch ids overlap later ids when the counter advances by one (F10)")],
         groups=["route", "mixed", "batch"], nscen=n)
+    # ---- the HTTP client (HttpClient.tla): every sequence of calls / notifications x reply classes, replayed against a scripted
+    # tower service that sees each request and answers it
+    from checks import g
+    rh = vlib.tlc("HttpClient", "MC_HttpClient.cfg" if tier == "quick" else "MC_HttpClient_thorough.cfg", workers=4, timeout=600)
+    rep.add_tlc(rh, "HTTP client: every sequence of <= %d calls / notifications x 18 reply classes; Inv_OkOnlyForOwnId, "
+                    "Inv_OutcomeAllowed, Inv_IdsDistinct, Inv_ErrorObjectDelivered" % (2 if tier == "quick" else 3))
+    if len(rh["replay"]) < 1300 or vlib.zero_coverage(rh, ["Call", "Finish"]):
+        raise vlib.ToolError("vacuity: HTTP client enumeration incomplete")
+    rows = g.replay_flow(rep, "c03http", rh["replay"], timeout=1800,
+                         nontrivial=lambda c: any(x["reply"] != "okOwn" for x in c["calls"]))
+    rep.cov["http_client_outcomes_differing_from_model_but_acceptable"] = sum(r["n"] for r in rows if r.get("stat") == "model_drift")
     rep.cov["rule"] = ("design: every interleaving of front ends, send task, read task and an adversarial peer for 3 calls / 4 peer texts; "
                        "conformance: seeded random scenarios (calls, subscribes, batches; peer answers to seen / foreign / repeated ids, "
                        "numeric and string ids, singly and in arrays; faults) recorded from the real client and validated event by event: "
                        "each completion must carry the token of a consumed text whose id is the id that operation put on the wire; "
-                       "non-trivial = scenario contains a fault, an array, a close or a stream operation")
+                       "HTTP client: every sequence of calls / notifications (2 in quick, 3 in thorough) x 18 reply classes (own / next / previous / null / "
+                       "other-typed id, undecodable result, error objects, both / neither member, not JSON, empty, an array, non-2xx, oversize) "
+                       "replayed through the real HttpClient over a scripted service: one request per call with the next id in the "
+                       "configured kind, `Ok` only for the own id's result and with that value, an error object delivered unaltered, "
+                       "anything else an error of the client; "
+                       "non-trivial = scenario contains a fault, an array, a close or a stream operation (HTTP: a reply other than the plain answer)")
     return rep.finish()
 
 
 def replay(path):
+    import json
+    if json.load(open(path)).get("key", "").startswith("http-client:"):
+        from checks import g
+        return g.replay_one("c03http", path)
     return client.replay_client(PID, path)
